@@ -105,7 +105,7 @@ def slice_(v, a, b, pythonic=True, simp=None):
     if not pythonic:
         lo = z3.IntVal(0) if a is None else a.e
         hi = n if b is None else b.e
-        return SV(v.t, z3.SubSeq(v.e, lo, z3.simplify(hi - lo)))
+        return SV(v.t, z3.SubSeq(v.e, lo, hi - lo))
     lo = clamp_lo(v.e, None if a is None else a.e, simp)
     hi = n if b is None else clamp_lo(v.e, b.e, simp)
     if simp is not None and simp(hi >= lo):
